@@ -407,3 +407,69 @@ def once_per_iteration(fn, loop, stmt):
     if fn.cfg.reaches_avoiding(body_in, head, [an]):
         return False, 'a normal path through the iteration skips it'
     return True, ''
+
+
+# ---------------------------------------------------------------------------
+# statement inventory: the function contains each documented statement (up to renaming of locals)
+
+def inventory(fn, rule, items, metas, root=None, fixed=None, required=True, ordered_add=False):
+    """items: list of (instance, pattern source[, options]).  Metavariables (names in `metas`) bind
+    consistently across all items to the function's local names, so renaming locals or reordering
+    independent statements does not matter; changing what a statement computes does.
+    Returns the final binding."""
+    stmts = [s for s in fn.walk(root, into_nested=True) if isinstance(s, ast.stmt)
+             and not isinstance(s, (ast.FunctionDef, ast.ClassDef, ast.Import, ast.ImportFrom, ast.Try, ast.With))]
+    stmts.sort(key=lambda s: (s.lineno, s.col_offset))
+    mkN = lambda: sym.Normalizer(ordered_add=ordered_add)
+    nfs = [(s, sym.stmt_nf(s, mkN())) for s in stmts]
+    pats = [(it[0], sym.parse_pattern(it[1], mkN()), it[1]) for it in items]
+    metas = metas if isinstance(metas, dict) else set(metas)
+    best = {'n': -1, 'binding': {}, 'matched': {}}
+
+    def solve(i, binding, matched):
+        if len(matched) > best['n']:
+            best.update(n=len(matched), binding=dict(binding), matched=dict(matched))
+        if i == len(pats):
+            return True
+        inst, pat, src = pats[i]
+        for s, nf in nfs:
+            if any(s is m for m in matched.values()):
+                continue
+            b = sym.unify(pat, nf, binding, metas)
+            if b is not None:
+                matched[inst] = s
+                if solve(i + 1, b, matched):
+                    return True
+                del matched[inst]
+        return False
+
+    init = {}
+    for k, v in (fixed or {}).items():
+        init[k] = ('var', v) if isinstance(v, str) else v
+    ok = solve(0, init, {})
+    if ok:
+        for inst, pat, src in pats:
+            fn.ob(rule, inst, True, best['matched'][inst], key=inst)
+        return best['binding']
+    # report: with the best partial binding, which items have no matching statement
+    binding = best['binding']
+    matched = best['matched']
+    for inst, pat, src in pats:
+        if inst in matched:
+            fn.ob(rule, inst, True, matched[inst], key=inst)
+            continue
+        hit = None
+        for s, nf in nfs:
+            if sym.unify(pat, nf, binding, metas) is not None:
+                hit = s
+                break
+        if hit is not None:
+            fn.ob(rule, inst, True, hit, key=inst)
+        else:
+            # nearest statement: same statement kind and same target, for the diagnostic
+            near = [s for s, nf in nfs if nf and pat and nf[0] == pat[0] and (
+                pat[0] != 'assign' or sym.unify(pat[1], nf[1], binding, metas) is not None)]
+            fn.ob(rule, inst, False, near[0] if near else fn.ast,
+                  detail='no statement of the documented form `%s`%s' % (
+                      src.strip(), ('; nearest: `%s`' % norm_stmt(near[0])) if near else ''), key=inst)
+    return binding
